@@ -189,3 +189,14 @@ func VerifSlidingWindow(n int, writes [][]byte) [][]byte {
 	sw.close()
 	return out
 }
+
+// VerifReadDict returns a copy of the sliding window the connection's reader would hand to its
+// inflater as preset dictionary (nil when the read direction has no context takeover or the window
+// is not initialised). It is meant to be called from the event hook at "get-flate-reader", which runs
+// under the connection's read lock.
+func VerifReadDict(c *Conn) []byte {
+	if c.msgReader == nil || c.msgReader.dict == nil || c.msgReader.dict.buf == nil {
+		return nil
+	}
+	return append([]byte(nil), c.msgReader.dict.buf...)
+}
